@@ -218,6 +218,9 @@ func bytesValue(t reflect.Type, b []byte) reflect.Value {
 var no = reflect.Value{}
 
 // toGoScalar: a non-null scalar as a non-pointer Go type t
+var timeZones = []*time.Location{time.UTC, time.FixedZone("+0530", 19800), time.UTC, time.FixedZone("-0800", -28800),
+	time.FixedZone("+1400", 50400), time.FixedZone("-1200", -43200), time.FixedZone("+0045", 2700)}
+
 func toGoScalar(c *cv, dt datatype.DataType, t reflect.Type) (reflect.Value, bool) {
 	code := dt.Code()
 	switch c.k {
@@ -242,16 +245,19 @@ func toGoScalar(c *cv, dt datatype.DataType, t reflect.Type) (reflect.Value, boo
 		case isIntKind(t.Kind()) || isUintKind(t.Kind()):
 			return setInt(t, c.i)
 		case t == tTime:
+			// the same instant presented in some location (chosen by the value): the codecs document that a time.Time is
+			// normalised to UTC before encoding
+			zone := timeZones[int(new(big.Int).Mod(c.i, big.NewInt(int64(len(timeZones)))).Int64())]
 			switch code {
 			case primitive.DataTypeCodeDate:
-				return reflect.ValueOf(time.Unix(c.i.Int64()*86400, 0).UTC()), true
+				return reflect.ValueOf(time.Unix(c.i.Int64()*86400, 0).In(zone)), true
 			case primitive.DataTypeCodeTimestamp:
 				ms := c.i.Int64()
 				s := floorDiv(ms, 1000)
-				return reflect.ValueOf(time.Unix(s, (ms-s*1000)*1e6).UTC()), true
+				return reflect.ValueOf(time.Unix(s, (ms-s*1000)*1e6).In(zone)), true
 			case primitive.DataTypeCodeTime:
-				// only the clock part counts: some date, in UTC
-				return reflect.ValueOf(time.Date(2021, 3, 4, 0, 0, 0, 0, time.UTC).Add(time.Duration(c.i.Int64()))), true
+				// only the clock part (in UTC) counts: some date
+				return reflect.ValueOf(time.Date(2021, 3, 4, 0, 0, 0, 0, time.UTC).Add(time.Duration(c.i.Int64())).In(zone)), true
 			}
 			return no, false
 		case t == tString:
